@@ -26,4 +26,8 @@ long sched_nchoices(const Scheduler* s);
 const int* sched_choices(const Scheduler* s);       // the schedule that was executed (replayable)
 void sched_pair_matrix(const Scheduler* s, long out[8][8]); // event kinds adjacent across a context switch
 
+// sanitizer finding counter (incremented from __asan_on_error / __tsan_on_report / __ubsan_on_report)
+long sanitizer_reports();
+void sanitizer_reports_reset();
+
 }  // namespace sim
